@@ -746,6 +746,7 @@ SKIP_RECORD_PARSE:
                 to reset the test for any future rehandshakes */
             ssl->expectedEpoch[0] = ssl->rec.epoch[0];
             ssl->expectedEpoch[1] = ssl->rec.epoch[1];
+            dtlsResetReplayWindow(ssl);
         }
         else if (rc != 0)
         {
@@ -765,6 +766,7 @@ SKIP_RECORD_PARSE:
             {
                 ssl->expectedEpoch[0] = ssl->rec.epoch[0];
                 ssl->expectedEpoch[1] = ssl->rec.epoch[1];
+                dtlsResetReplayWindow(ssl);
             }
 
             /* Yet another corner case where we are receiving application data
@@ -779,6 +781,9 @@ SKIP_RECORD_PARSE:
             {
                 ssl->expectedEpoch[0] = ssl->rec.epoch[0];
                 ssl->expectedEpoch[1] = ssl->rec.epoch[1];
+                dtlsResetReplayWindow(ssl);
+                /* Register this record as the first one of the new epoch */
+                (void) dtlsChkReplayWindow(ssl, ssl->rec.rsn);
                 goto ADVANCE_TO_APP_DATA;
             }
 
@@ -1339,6 +1344,7 @@ ADVANCE_TO_APP_DATA:
               Expect epoch to increment after successful CCS parse
             */
             incrTwoByte(ssl, ssl->expectedEpoch, 0);
+            dtlsResetReplayWindow(ssl);
         }
 #endif  /* USE_DTLS */
 
